@@ -327,12 +327,15 @@ def check_fast_gap(repo, rep, tier):
     rep.floor(rid, 500)
 
 
-def check_symbol_interleaving(repo, rep, rid="C02-R7"):
+def check_symbol_interleaving(repo, rep, rid="C02-R7", protocol=True):
     rep.rule(rid, "several symbols advance minute by minute: an order that a hook of symbol A creates for symbol B at minute m may only be "
                   "matched against B's candles from m on, and the candles / prices of B that A's hooks read must be those of minute m. "
                   "Decided by executing each simulator's feeding function abstractly for two symbols with the matcher replaced by a "
                   "recorder: the recorded (symbol, first minute, number of minutes) sequence must be minute-major - every symbol's "
-                  "minute m before any symbol's minute m+1 - and cover the chunk exactly once per symbol")
+                  "minute m before any symbol's minute m+1 - and cover the chunk exactly once per symbol"
+                  + ("; between two minutes of one chunk every symbol's active-order list is pruned and then the pending MARKET orders are "
+                     "executed, as the normal simulator does at the end of every minute (a MARKET order submitted by a fill hook is executed "
+                     "before any later candle is processed)" if protocol else ""))
     from vlib.absint import Frame
     MINUTE = 60_000
     t0 = 1_600_000_020_000 // MINUTE * MINUTE
@@ -347,20 +350,28 @@ def check_symbol_interleaving(repo, rep, rid="C02-R7"):
         stubs = W.base_stubs()
         eff = "_simulate_price_change_effect_multiple_candles" if sim == "_skip_simulator" else "_simulate_price_change_effect"
 
-        def rec(it, a, k, calls=calls, sim=sim):
+        events = []
+
+        def rec(it, a, k, calls=calls, sim=sim, events=events):
             c = a[0]
             if sim == "_skip_simulator":
                 rows = c.rows
                 calls.append((a[2], int(rows[0].items[0].const_value() - t0) // MINUTE, len(rows)))
             else:
                 calls.append((a[2], int(c.items[0].const_value() - t0) // MINUTE, 1))
+            events.append(("match",) + calls[-1])
         stubs[f"{BT}:{eff}"] = rec
         stubs[f"{BT}:_get_fixed_jumped_candle"] = lambda it, a, k: a[1]
         it = Interp(repo, stubs=stubs)
         it.overrides["jesse/config.py:config"] = {"app": {"considering_timeframes": ("1m",)}, "env": {}}
         cs = Obj("CandlesState", name="store.candles", attrs={}, open_world=True)
         W.bind(cs, "add_candle", lambda i, a, k: None)
-        it.overrides[f"{W.STORE}:store"] = Obj("StoreClass", name="store", attrs={"candles": cs, "app": Obj("AppState", name="app", attrs={}, open_world=True)}, open_world=True)
+        so = Obj("OrdersState", name="store.orders", attrs={}, open_world=True)
+        W.bind(so, "update_active_orders", lambda i, a, k, events=events: events.append(("prune", a[1])))
+        W.bind(so, "execute_pending_market_orders", lambda i, a, k, events=events: events.append(("flush",)))
+        it.overrides[f"{W.STORE}:store"] = Obj("StoreClass", name="store", attrs={"candles": cs, "orders": so, "app": Obj("AppState", name="app", attrs={}, open_world=True)}, open_world=True)
+        it.overrides["jesse/routes/__init__.py:router"] = Obj("RouterClass", name="router", attrs={
+            "routes": [Obj("Route", name=f"route-{sy}", attrs={"exchange": "Sandbox", "symbol": sy, "timeframe": "3m"}, open_world=True) for sy in ("AAA-USDT", "BBB-USDT")]}, open_world=True)
         it.stubs[f"{W.HELPERS}:is_debuggable"] = lambda i, a, k: False
         candles = cds(6)
         try:
@@ -407,7 +418,25 @@ def check_symbol_interleaving(repo, rep, rid="C02-R7"):
                           f"{sim} (two symbols, start {start}, step {step}): the matcher is fed {calls} - a whole multi-minute chunk of one symbol before the next symbol's: an "
                           f"order created for another symbol by a hook at minute m is matched against that symbol's earlier minutes of the chunk (executed before it was "
                           f"submitted) or misses its later ones, and the other symbols' candles and prices seen by a hook are up to a chunk off")
-        rep.instance(rid, f"{sim}|start={start}|step={step}", {"simulator": sim, "matcher_calls": calls})
+        # end-of-minute protocol between two minutes of one chunk: the normal simulator prunes every route's active-order list and
+        # executes the pending MARKET orders after every minute (chunk ends are handled by the simulator's own loop)
+        if protocol and sim == "_skip_simulator" and exact and order_ok:
+            midx = [i for i, e in enumerate(events) if e[0] == "match"]
+            for a, b in zip(midx, midx[1:]):
+                if events[b][2] == events[a][2]:
+                    continue          # same minute, next symbol
+                between = events[a + 1:b]
+                fl = [i for i, e in enumerate(between) if e == ("flush",)]
+                pruned = {e[1] for e in between[:fl[0]] if e[0] == "prune"} if fl else set()
+                if not fl or pruned != {"AAA-USDT", "BBB-USDT"}:
+                    rep.violation(rid, f"{sim}|minute-end-protocol",
+                                  f"{sim} (two symbols, start {start}, step {step}): between the matching of minute {events[a][2]} and minute {events[b][2]} of one chunk the "
+                                  f"simulator does {between or 'nothing'}; as at the end of every minute of the normal simulator, every symbol's active-order list must be "
+                                  f"pruned and the pending MARKET orders executed - otherwise a MARKET order submitted by a fill hook of minute {events[a][2]} is still "
+                                  f"pending while minute {events[b][2]} is matched (it fills a minute late or is overtaken by a resting order), and executed orders stay "
+                                  f"listed as active for an extra minute")
+                    break
+        rep.instance(rid, f"{sim}|start={start}|step={step}", {"simulator": sim, "matcher_calls": calls, "events": [list(map(str, e)) for e in events]})
     rep.floor(rid, 3)
 
 
